@@ -377,6 +377,8 @@ def run(ctx):
     codecmodel.report(ctx, "C03/DISPATCH", codecmodel.explore_dispatch, codecmodel.DISPATCH_LAWS,
                       m.own_method("prop.vDDDTypes.from_ical").loc(), 20)
 
+    codecmodel.report(ctx, "C03/SCALARS", codecmodel.explore_scalars, codecmodel.SCALAR_LAWS,
+                      m.cls("prop.vInt").loc(), 30)
     codecmodel.report(ctx, "C03/FRESH", codecmodel.explore_freshness, codecmodel.FRESH_LAWS,
                       m.cls("prop.vDDDTypes").loc(), 8)
 
